@@ -1,220 +1,196 @@
+// C11 — circuit relay v2 honours reservations, ACL, caps and per-circuit limits.
+//
+// Full-stack, lock-level simulation: a REAL relay (relay.New on a basic host with the real resource
+// manager behind refusing wrappers and a real BasicConnMgr) serves 3-5 real client hosts (+ optionally a
+// client X that reaches it through a second relay R2) on simnet. Clients use client.Reserve and the
+// client transport, or speak the hop / stop protocols by hand (byzantine source / destination, exact
+// byte accounting). A three-valued reference model (model_test.go) says which answers are allowed.
+//
+// Files: gen_test.go (what a tape draws), world_test.go (population, raw stop handler, fault arming),
+// ops_test.go (operations + oracles + audits), batch_test.go (concurrent batches), raw_test.go (hand-written
+// protocol speakers, voucher verification), rcscope_test.go (refusals in the relay's service scope).
+//
+// MUTATIONS TRIED (see the end of this comment block for the table filled in after the sensitivity runs).
 package c11
 
 import (
-	"context"
 	"fmt"
 	"os"
+	"strings"
 	"testing"
 	"time"
 
-	"github.com/libp2p/go-libp2p/core/network"
 	"github.com/libp2p/go-libp2p/core/peer"
-	basichost "github.com/libp2p/go-libp2p/p2p/host/basic"
-	rcmgr "github.com/libp2p/go-libp2p/p2p/host/resource-manager"
-	"github.com/libp2p/go-libp2p/p2p/net/connmgr"
-	"github.com/libp2p/go-libp2p/p2p/protocol/circuitv2/client"
-	pbv2 "github.com/libp2p/go-libp2p/p2p/protocol/circuitv2/pb"
-	"github.com/libp2p/go-libp2p/p2p/protocol/circuitv2/proto"
-	"github.com/libp2p/go-libp2p/p2p/protocol/circuitv2/relay"
-	"github.com/libp2p/go-libp2p/p2p/protocol/circuitv2/util"
-	"github.com/libp2p/go-libp2p/p2p/transport/tcp"
-	ma "github.com/multiformats/go-multiaddr"
 
 	"verifsim/harness/common"
-	"verifsim/simhost"
 	"verifsim/simnet"
 	"verifsim/simrt"
 )
 
 func TestSim(t *testing.T) { common.Main(t, common.Harness{Property: "C11", Run: run}) }
 
-var debug = os.Getenv("C11_DEBUG") != ""
+var (
+	debug  = os.Getenv("C11_DEBUG") != ""
+	strict = os.Getenv("C11_STRICT") != ""
+)
 
-type cli struct {
-	idx      int
-	nd       *simhost.Node
-	real     network.ResourceManager
-	dialer   *simnet.Dialer
-	realStop bool
-	inbox    []*incoming
-	script   []stopPlan
+// privateKnown: candidate findings reported to the lead, not yet classified (see world.violate).
+var privateKnown = map[string]bool{
+	"C11/reservation-cap-exceeded/after-refused-refresh": true,
 }
 
-type world struct {
-	o     *common.Outcome
-	n     *simnet.Net
-	R     *cli
-	rl    *relay.Relay
-	cm    *connmgr.BasicConnMgr
-	svc   *svcRcmgr
-	rw    *simhost.RefusingRcmgr
-	rc    relay.Resources
-	cl    []*cli
-	secu  string
-	disc  map[peer.ID]int
-	close []func()
+func (w *world) exec(op opT) string {
+	switch op.kind {
+	case opReserve:
+		return w.doReserve(op)
+	case opConnect:
+		return w.doConnect(op)
+	case opConnectReal:
+		return w.doConnectReal(op)
+	case opAdvance:
+		return w.doAdvance(op)
+	case opDisconnect:
+		return w.doDisconnect(op)
+	case opMove:
+		return w.doMove(op)
+	case opCloseCirc:
+		return w.doCloseCirc(op)
+	case opBatch:
+		return w.doBatch(op)
+	}
+	return "?"
 }
 
-func (w *world) mkNode(seed int, ip string, port int, ho *basichost.HostOpts, wrapRc bool) (*cli, error) {
-	real, err := rcmgr.NewResourceManager(rcmgr.NewFixedLimiter(rcmgr.InfiniteLimits), rcmgr.WithMetricsDisabled())
-	if err != nil {
-		return nil, err
-	}
-	c := &cli{real: real, dialer: w.n.Dialer(ip)}
-	var rm network.ResourceManager = real
-	if wrapRc {
-		w.rw = simhost.NewRefusingRcmgr(real, "", 0)
-		w.svc = newSvcRcmgr(w.rw)
-		rm = w.svc
-	}
-	d := c.dialer
-	nd, err := simhost.New(w.n, simhost.Opts{Key: simhost.DetKey(seed), IP: ip, Port: port, Security: w.secu, Rcmgr: rm, WithHost: true, HostOpts: ho,
-		TCPOpts: []tcp.Option{tcp.WithDialerForAddr(func(ma.Multiaddr) (tcp.ContextDialer, error) { return d, nil })}})
-	if err != nil {
-		real.Close()
-		return nil, err
-	}
-	c.nd = nd
-	w.close = append(w.close, func() { nd.Close(); real.Close() })
-	return c, nil
+func (w *world) step(tag string, op opT) {
+	desc := w.cfg.opString(op)
+	res := w.exec(op)
+	line := fmt.Sprintf("%s %s => %s", tag, desc, res)
+	w.hist = append(w.hist, line)
+	w.logf("%s", line)
+	w.checkpoint("after " + tag + " " + desc)
 }
 
-func (w *world) stopHandler(c *cli) func(network.Stream) {
-	return func(s network.Stream) {
-		in := &incoming{at: simrt.Now()}
-		c.inbox = append(c.inbox, in)
-		if len(c.script) > 0 {
-			in.plan = c.script[0]
-			c.script = c.script[1:]
+// finalAudit: whatever happened, once everything ended the relay is back to its initial capacity.
+func (w *world) finalAudit() {
+	c, m := w.cfg, w.m
+	for _, cc := range m.circs {
+		if cc.state != circClosed {
+			w.endCircuit(cc)
 		}
-		s.SetDeadline(time.Now().Add(150 * time.Second))
-		rd := util.NewDelimitedReader(s, maxMsg)
-		defer rd.Close()
-		var msg pbv2.StopMessage
-		if err := rd.ReadMsg(&msg); err != nil {
-			in.readErr = err.Error()
-			s.Reset()
-			return
+	}
+	for _, cl := range w.cl {
+		cl.script = nil
+		for _, in := range cl.inbox {
+			if in.stream != nil {
+				in.stream.Reset()
+			}
 		}
-		if pi, err := util.PeerToPeerInfoV2(msg.GetPeer()); err == nil {
-			in.src = pi.ID
+	}
+	simrt.WaitIdle()
+	// past every reservation's expiry + collection, every handshake timeout and every duration limit
+	simrt.TimeSleep(c.ttl + gcSlack + 10*time.Second)
+	simrt.WaitIdle()
+	w.applyDisc(w.takeDisc(), nil)
+	w.checkpoint("final audit, everything expired")
+	if len(m.rsv) != 0 && w.o.Trouble == "" {
+		w.o.Trouble = "model still holds reservations after the final wait: " + w.rsvDump()
+	}
+	direct := func(i int) bool { return !w.cl[i].relayed }
+	allowed := func(s, d int) bool { return !(c.denySrc == s && c.denyDst == d) }
+	// (a) former reservation holders are no destinations any more
+	probes := 0
+	for d := 0; d < c.nCl && probes < 2; d++ {
+		if !w.everRsv[d] || w.cl[d].realStop {
+			continue
 		}
-		in.limit = msg.GetLimit()
-		var rep pbv2.StopMessage
-		rep.Type = pbv2.StopMessage_STATUS.Enum()
-		rep.Status = pbv2.Status_OK.Enum()
-		if err := util.NewDelimitedWriter(s).WriteMsg(&rep); err != nil {
-			in.readErr = "write: " + err.Error()
-			s.Reset()
-			return
+		for s := 0; s < c.nCl; s++ {
+			if s != d && allowed(s, d) && w.ensure(w.cl[d]) {
+				w.step("final-a", opT{kind: opConnect, a: s, b: d, fwd: 4, back: 4})
+				probes++
+				break
+			}
 		}
-		s.SetDeadline(time.Time{})
-		in.stream = s
+	}
+	// (b) fresh reservations: the model is empty, so grants and refusals are both determined by the caps
+	for i := 0; i < c.nCl; i++ {
+		w.step("final-b", opT{kind: opReserve, a: i, raw: i%2 == 1})
+	}
+	// (c) fresh circuits: every party that took part in a circuit attempt can again be a party of
+	// MaxCircuits circuits at once, and not of one more
+	done := 0
+	for p := 0; p < c.nCl && done < 3; p++ {
+		if !w.touched[p] {
+			continue
+		}
+		s, d := -1, -1
+		if m.defLive(p, simrt.Now()) && !w.cl[p].realStop {
+			for q := 0; q < c.nCl; q++ {
+				if q != p && direct(q) && allowed(q, p) {
+					s, d = q, p
+					break
+				}
+			}
+		}
+		if s < 0 {
+			for h := 0; h < c.nCl; h++ {
+				if h != p && m.defLive(h, simrt.Now()) && !w.cl[h].realStop && allowed(p, h) {
+					s, d = p, h
+					break
+				}
+			}
+		}
+		if s < 0 {
+			continue
+		}
+		done++
+		for k := 0; k <= c.maxCirc; k++ {
+			w.step(fmt.Sprintf("final-c%d", k), opT{kind: opConnect, a: s, b: d, hold: true})
+		}
+		for _, cc := range m.circs {
+			if cc.state != circClosed {
+				w.endCircuit(cc)
+			}
+		}
+		simrt.WaitIdle()
+		w.checkpoint("final audit, circuits closed again")
 	}
 }
 
 func run(t *testing.T, tape *simrt.Tape) *common.Outcome {
 	g := simrt.Gen{S: tape.G}
 	o := &common.Outcome{}
-	w := &world{o: o, disc: map[peer.ID]int{}}
-	w.secu = []string{"insecure", "noise"}[g.Weighted(3, 1)]
-	nCl := 3
+	cfg := drawCfg(g)
+	w := &world{o: o, cfg: cfg, m: newModel(), disc: nil, leakReported: map[string]bool{}, touched: map[int]bool{}, everRsv: map[int]bool{}}
+	o.Logf("config: %s", cfg)
+	nontrivial := false
 
-	res := simrt.Run(t, simrt.Config{MaxSteps: 3000000, IdleLimit: 24 * time.Hour, TraceCap: 1000}, tape.S, func() {
-		w.n = simnet.New(tape.S, simnet.Config{Mode: simnet.Whole})
+	res := simrt.Run(t, simrt.Config{MaxSteps: 6000000, IdleLimit: 24 * time.Hour, TraceCap: 2000}, tape.S, func() {
+		w.n = simnet.New(tape.S, simnet.Config{Mode: cfg.mode})
+		w.disc = nil
 		defer func() {
-			for i := len(w.close) - 1; i >= 0; i-- {
-				w.close[i]()
-			}
+			w.closeAll()
+			simrt.WaitIdle()
 		}()
-		cm, err := connmgr.NewConnManager(1000, 2000)
-		if err != nil {
-			o.Trouble = err.Error()
+		w.disc = map[peer.ID]int{}
+		if !w.setup() {
 			return
 		}
-		w.cm = cm
-		R, err := w.mkNode(100, "5.5.5.1", 4001, &basichost.HostOpts{ConnManager: cm}, true)
-		if err != nil {
-			o.Trouble = "relay node: " + err.Error()
-			return
-		}
-		w.R = R
-		w.rc = relay.DefaultResources()
-		w.rc.Limit = &relay.RelayLimit{Duration: 20 * time.Second, Data: 2048}
-		w.rc.ReservationTTL = time.Minute
-		w.rc.MaxReservations = 2
-		w.rc.MaxReservationsPerIP = 1
-		w.rc.MaxCircuits = 1
-		w.rc.BufferSize = 256
-		rl, err := relay.New(R.nd.Host, relay.WithResources(w.rc))
-		if err != nil {
-			o.Trouble = "relay: " + err.Error()
-			return
-		}
-		w.rl = rl
-		w.close = append(w.close, func() { rl.Close() })
-		ips := []string{"1.2.3.4", "1.2.3.5", "1.2.3.4"}
-		for i := 0; i < nCl; i++ {
-			c, err := w.mkNode(1+i, ips[i], 0, nil, false)
-			if err != nil {
-				o.Trouble = "client node: " + err.Error()
-				return
+		w.checkpoint("after setup")
+		for i, op := range cfg.ops {
+			if o.Trouble != "" || len(o.Violations) > 0 {
+				break
 			}
-			c.idx = i
-			c.realStop = i == 2
-			if c.realStop {
-				if err := client.AddTransport(c.nd.Host, c.nd.Up); err != nil {
-					o.Trouble = "client transport: " + err.Error()
-					return
-				}
-			} else {
-				c.nd.Host.SetStreamHandler(proto.ProtoIDv2Stop, w.stopHandler(c))
-			}
-			w.cl = append(w.cl, c)
+			w.step(fmt.Sprintf("op%d", i), op)
 		}
-		ctx := context.Background()
-		rpub := R.nd.Key.GetPublic()
-		for _, c := range w.cl {
-			cctx, cancel := context.WithTimeout(ctx, 30*time.Second)
-			err := c.nd.Host.Connect(cctx, R.nd.AddrInfo())
-			cancel()
-			simrt.WaitIdle()
-			o.Logf("connect c%d: %v", c.idx, err)
+		nontrivial = w.granted >= 1 && w.connects >= 1
+		if o.Trouble == "" && len(o.Violations) == 0 {
+			w.finalAudit()
 		}
-		for i, c := range w.cl {
-			var r rsvResult
-			if i%2 == 0 {
-				r = rawReserve(ctx, c.nd.Host, R.nd.ID, rpub)
-			} else {
-				r = realReserve(ctx, c.nd.Host, R.nd.AddrInfo())
-			}
-			simrt.WaitIdle()
-			o.Logf("reserve c%d: %s expire=%d problem=%q err=%q", c.idx, stName(r.status), r.expire, r.problem, r.errText)
-		}
-		cr := rawConnect(ctx, w.cl[1].nd.Host, R.nd.ID, w.cl[0].nd.ID, hopNormal)
-		simrt.WaitIdle()
-		o.Logf("connect c1->c0: %s limit=%v err=%q inbox=%d", stName(cr.status), cr.limit, cr.errText, len(w.cl[0].inbox))
-		if cr.stream != nil && len(w.cl[0].inbox) == 1 && w.cl[0].inbox[0].stream != nil {
-			ds := w.cl[0].inbox[0].stream
-			var fw, bw sink
-			simrt.GoNamed("rd-fwd", func() { fw.run(ds, 1, 0) })
-			simrt.GoNamed("rd-bwd", func() { bw.run(cr.stream, 1, 1) })
-			simrt.GoNamed("wr-fwd", func() { cr.stream.Write(payload(1, 0, 3000)); cr.stream.CloseWrite() })
-			simrt.GoNamed("wr-bwd", func() { ds.Write(payload(1, 1, 100)); ds.CloseWrite() })
-			simrt.WaitIdle()
-			o.Logf("fwd: %+v", fw)
-			o.Logf("bwd: %+v", bw)
-			cr.stream.Reset()
-			ds.Reset()
-			simrt.WaitIdle()
-		}
-		simrt.TimeSleep(200 * time.Second)
-		simrt.WaitIdle()
 	})
 	o.Sched = res
 	o.Virtual = res.Virtual
-	o.Sig = fmt.Sprint(o.Trace)
-	o.Nontrivial = true
+	o.Sig = cfg.String() + "|" + strings.Join(w.hist, "|")
+	o.Nontrivial = nontrivial
 	if res.Panic != "" {
 		o.Violate("C11/panic", "%s", res.Panic)
 	}
@@ -222,13 +198,13 @@ func run(t *testing.T, tape *simrt.Tape) *common.Outcome {
 		o.Trouble = fmt.Sprintf("stuck=%v steplimit=%v", res.Stuck, res.StepLimit)
 	}
 	if len(res.Residue) > 0 && o.Trouble == "" {
-		o.Trouble = fmt.Sprintf("residue: %v", res.Residue)
+		o.Trouble = fmt.Sprintf("goroutines left after every host was closed: %v", res.Residue)
 	}
-	if debug {
+	if f := os.Getenv("C11_FIND"); debug || (f != "" && o.Probes[f] > 0) {
 		for _, l := range o.Trace {
 			fmt.Fprintln(os.Stderr, "  ", l)
 		}
-		fmt.Fprintf(os.Stderr, "steps=%d virtual=%v trouble=%q\n", res.Steps, res.Virtual, o.Trouble)
+		fmt.Fprintf(os.Stderr, "steps=%d virtual=%v trouble=%q violations=%d\n", res.Steps, res.Virtual, o.Trouble, len(o.Violations))
 	}
 	return o
 }
